@@ -1,6 +1,6 @@
 """Property -> rules table."""
 
-from .rules import inplace, maps, exponent, decomp, threads, evo, tebd, record, iso, optflow, registries, dmrg, bp, linalg, symmetry, gating, circuit, capguard, order, opalgebra, memo
+from .rules import inplace, maps, exponent, decomp, threads, evo, tebd, record, iso, optflow, registries, dmrg, bp, linalg, symmetry, gating, circuit, capguard, order, opalgebra, memo, envs
 import functools
 
 COMMON_ASSUMPTIONS = [
@@ -40,7 +40,7 @@ def _c13_family(f):
 
 REGISTRY = {
     "C13": {
-        "rules": [order.rule_requested_order, memo.rule_info_memo_key, 
+        "rules": [order.rule_requested_order, memo.rule_info_memo_key, envs.rule_env_exponent, 
             P(optflow.rule_option_delivery, opts=("normalized",), modules=("quimb.tensor",), rule="opt-deliver[normalized]", floor=15,
               description="from every function that accepts `normalized`, each call whose resolved callee (all candidates) accepts "
                           "`normalized` receives a value derived from the caller's own (or an explicit literal): an omitted "
